@@ -74,6 +74,8 @@ impl<T> BlockNode<T> {
         debug_assert!(id < BLOCK_SIZE);
         unsafe {
             let data = self.data.get_unchecked(id);
+            #[cfg(may_verif)]
+            crate::verif::point();
             data.value.get().read().assume_init()
         }
     }
